@@ -17,7 +17,7 @@
    that can raise; close() closes; called functions open nothing themselves. *)
 From Coq Require Import List Arith Bool String.
 Import ListNotations.
-Require Import IOSkel IOSkelProofs Skel.
+Require Import IOSkel IOSkelProofs IOSkelTrace IOSkelTraceProofs Skel.
 
 (* ---- the general theorems: ALL programs, ALL fault sequences -------------------------- *)
 Theorem C20_sound : forall s, leak_free s = true ->
@@ -41,6 +41,19 @@ Proof. exact leak_free_ret_sound. Qed.
 Theorem C20_caller_untouched_sound : forall s σ o σ', exec s σ o σ' ->
   caller_handles_untouched s = true -> touched σ' = touched σ.
 Proof. exact caller_handles_untouched_sound. Qed.
+
+(* ---- the tie's acceptor is sound: an observed sequence of open / open-failed / close events
+   that `accepts` admits is the event sequence of a run of the skeleton (xexec = exec with its
+   events), and for a leak-free skeleton that run ends owning nothing open ---------------- *)
+Theorem C20_trace_acceptor_sound : forall s tr raised, accepts s tr raised = true ->
+  exists o σ', xexec s ([], [], 0) tr o σ' /\ outcome_is raised o.
+Proof. exact accepts_sound. Qed.
+Theorem C20_xexec_is_exec : (forall s σ tr o σ', xexec s σ tr o σ' -> exec s σ o σ') /\
+                            (forall s σ o σ', exec s σ o σ' -> exists tr, xexec s σ tr o σ').
+Proof. exact (conj xexec_exec exec_xexec). Qed.
+Theorem C20_accepted_is_clean : forall s tr raised, leak_free s = true -> accepts s tr raised = true ->
+  exists o σ', xexec s ([], [], 0) tr o σ' /\ outcome_is raised o /\ owned σ' = [] /\ lost σ' = 0.
+Proof. exact accepted_is_clean. Qed.
 
 (* ---- today's source: the skeletons regenerated from /repo ----------------------------- *)
 (* read() with open_file / open_with_codecs / adhoc_test_encoding inlined at their calls *)
@@ -96,7 +109,7 @@ Proof.
 Qed.
 (* lasio's write() before the repair (F14): open, write, close with no finally *)
 Definition write_before_fix : stmt :=
-  seqs [MayRaise; If (Open 3) Skip; MayRaise; Close 3].
+  seqs [MayRaise; If (Open 3) Skip; MayRaise; Guarded 3 (Close 3)].
 Example C20_ex_write_before_fix_rejected : leak_free write_before_fix = false.
 Proof. vm_compute. reflexivity. Qed.
 Example C20_ex_write_before_fix_leaks : exec write_before_fix ([], [], 0) ORaise ([3], [], 0).
@@ -106,10 +119,24 @@ Proof.
     + cbn. eapply XSeqX. * apply XMayR. * discriminate.
 Qed.
 (* ... and the repaired shape is accepted; a close that itself raises is covered *)
-Example C20_ex_write_after_fix : leak_free (seqs [MayRaise; If (Open 3) Skip; TryFinally MayRaise (Close 3)]) = true.
+Example C20_ex_write_after_fix :
+  leak_free (seqs [MayRaise; If (Open 3) Skip; TryFinally MayRaise (Guarded 3 (Close 3))]) = true.
 Proof. vm_compute. reflexivity. Qed.
 Example C20_ex_close_raises : exec (TryFinally MayRaise (Close 3)) ([3], [], 0) ORaise ([], [], 0).
 Proof. eapply XFinX. - apply XMayN. - exact (XCloseR 3 [3] [] 0). - discriminate. Qed.
+(* the guard cannot be used to skip the close of an open file *)
+Example C20_ex_guard_not_skippable : forall o σ',
+  exec (Guarded 3 (Close 3)) ([3], [], 0) o σ' -> owned σ' = [].
+Proof.
+  intros o σ' X. inversion X; subst.
+  - inversion H4; subst; reflexivity.
+  - discriminate.
+Qed.
+(* the acceptor admits the events of a clean write(path) and rejects a run that never closes *)
+Example C20_ex_trace_accepted : accepts skel_write [EOpen 3; EClose 3] false = true.
+Proof. vm_compute. reflexivity. Qed.
+Example C20_ex_trace_rejected : accepts skel_write [EOpen 3] true = false.
+Proof. vm_compute. reflexivity. Qed.
 (* overwriting a variable that holds an open file loses the file: rejected, and visible *)
 Example C20_ex_rebind_rejected : leak_free (Seq (Open 0) (Seq (Rebind 0) (Close 0))) = false.
 Proof. vm_compute. reflexivity. Qed.
@@ -148,6 +175,9 @@ Print Assumptions C20_sound.
 Print Assumptions C20_sound_general.
 Print Assumptions C20_ret_sound.
 Print Assumptions C20_caller_untouched_sound.
+Print Assumptions C20_trace_acceptor_sound.
+Print Assumptions C20_xexec_is_exec.
+Print Assumptions C20_accepted_is_clean.
 Print Assumptions C20_read.
 Print Assumptions C20_write.
 Print Assumptions C20_to_csv.
